@@ -50,6 +50,7 @@ func c10Reference(t *testing.T, c simCase) *c10Ref {
 	var wmark int
 	s := runSim(t, c, ownership{}, func(s *sim) {
 		s.c10 = true
+		s.realCertificates = true // replayed headers come from the real chain: no validator signs two blocks of a round
 		s.recorder = func(d delivery) {
 			if cur >= 0 {
 				ref.deliveries[cur] = append(ref.deliveries[cur], d)
